@@ -140,9 +140,36 @@ def entry_operators(P, app, sid, cols, rng_, clauses):
         return list(seq.keys()), [tuple(r) for r in seq.iterdata()]
 
 
+def entry_mixed(P, app, sid, cols, rng_, clauses):
+    """part of the conjunction in the URL (`open_url(url?sid&clause…)`), the rest built with the operators on the opened
+    sequence; returns the derived rows and what the opened sequence itself reads before and after the derivation"""
+    n_url = (len(clauses) + 1) // 2
+    url_cl, op_cl = clauses[:n_url], clauses[n_url:]
+    ce = sid + "".join("&%s%s%s" % (a, o, b) for (a, o, b, _) in url_cl)
+    with warnings.catch_warnings():
+        warnings.simplefilter("ignore")
+        ds = P["open_url"]("http://localhost/d?" + quote(ce, safe="=&,.[]:<>!\"'()~_-"), application=app)
+        base = ds[sid]
+        before = [tuple(r) for r in base.iterdata()]
+        seq = base
+        for (_, o, _, rc) in op_cl:
+            c1, opsym, (kind, x) = rc
+            rhs = seq[x] if kind == "name" else x
+            seq = seq[OPS[opsym][1](seq[c1], rhs)]
+        if cols is not None:
+            seq = seq[tuple(cols)]
+        if rng_ is not None:
+            seq = seq[slice(rng_[0], rng_[2] + 1, rng_[1])]
+        got = [tuple(r) for r in seq.iterdata()]
+        after = [tuple(r) for r in ds[sid].iterdata()]
+        return list(seq.keys()), got, before, after, url_cl
+
+
 # ---- finding classes ------------------------------------------------------------------------------------------
 def finding_class(entry, backend, cols, rng_, clauses, kinds_by_name=None, expected_empty=False):
     """narrow classes of the open findings (known_findings.d/C04.json)"""
+    if entry == "mixed":          # URL selection + operators: the operator path's classes apply
+        entry = "operators"
     colcol = any(rc[2][0] == "name" for (_, _, _, rc) in clauses)
     strcl = kinds_by_name is not None and any(kinds_by_name[rc[0]] == "t" for (_, _, _, rc) in clauses)
     if backend in ("it", "csv") and expected_empty:
@@ -180,6 +207,19 @@ def check_case(ctx, P, backend, names, kinds, rows, cols, rng_, clauses, cases, 
                 got_cols, got = entry_raw(P, app, sid, ce, dict(zip(names, kinds)))
             elif entry == "open_url":
                 got_cols, got = entry_open_url(P, app, sid, ce)
+            elif entry == "mixed":
+                got_cols, got, before, after, url_cl = entry_mixed(P, app, sid, cols, rng_, cl)
+                base_exp = canon_rows([tuple(r) for r in seqtab.ref_filter(names, rows, [rc for (_, _, _, rc) in url_cl])])
+                for label, rows_ in (("before", before), ("after", after)):
+                    try:
+                        t = canon_rows(rows_)
+                    except Exception:
+                        t = "undecodable:" + repr(rows_)[:80]
+                    if t != base_exp:
+                        ctx.oracle_fail("mixed entry: the sequence opened with a URL selection reads other rows %s deriving "
+                                        "from it with the operators" % label, dict(case, entry=entry), t, base_exp,
+                                        cls=finding_class("operators", backend, None, None, url_cl,
+                                                          dict(zip(names, kinds)), base_exp == canon_rows([])), size=size)
             else:
                 got_cols, got = entry_operators(P, app, sid, cols, rng_, cl)
             try:
@@ -241,7 +281,7 @@ def explore(ctx, P, tier, search=False):
             cols, rng_, clauses = gen_request(rng, names, kinds, len(rows))
             for backend in BACKENDS:
                 check_case(ctx, P, backend, names, kinds, rows, cols, rng_, clauses, cases, tmpdir, "random",
-                           ("raw", "open_url", "operators"))
+                           ("raw", "open_url", "operators") + (("mixed",) if clauses else ()))
         ctx.correspond("BaseHandler .dods rows for ?cols[range]&clauses", cases, known_class=lambda m: m.get("raw_class"))
         # clause texts and encode(): driver instances vs Python
         from pydap.lib import encode
